@@ -66,3 +66,34 @@ pub fn guard<T>(f: impl FnOnce() -> T) -> Result<T, String> {
         }
     })
 }
+
+// ---- watchdog: a call into geo that never returns is data (a finding), not a tool error.  The driver "beats" before every
+// case / event; if no beat arrives for VERIF_HANG_LIMIT_S seconds (default 180) the watchdog thread writes <out>.hang with the
+// case in progress and ends the process with exit code 3, which bin/check reports as a VIOLATION with that case as replay.
+pub static BEAT_MS: std::sync::atomic::AtomicU64 = std::sync::atomic::AtomicU64::new(0);
+pub static CURRENT: std::sync::Mutex<String> = std::sync::Mutex::new(String::new());
+fn now_ms() -> u64 {
+    std::time::SystemTime::now().duration_since(std::time::UNIX_EPOCH).map(|d| d.as_millis() as u64).unwrap_or(0)
+}
+pub fn beat(desc: &str) {
+    if let Ok(mut c) = CURRENT.lock() {
+        c.clear();
+        c.push_str(desc);
+    }
+    BEAT_MS.store(now_ms(), std::sync::atomic::Ordering::SeqCst);
+}
+pub fn beat_off() {
+    BEAT_MS.store(0, std::sync::atomic::Ordering::SeqCst);
+}
+pub fn start_watchdog(out_path: String) {
+    let limit_ms: u64 = std::env::var("VERIF_HANG_LIMIT_S").ok().and_then(|v| v.parse().ok()).unwrap_or(180) * 1000;
+    std::thread::spawn(move || loop {
+        std::thread::sleep(std::time::Duration::from_millis(500));
+        let b = BEAT_MS.load(std::sync::atomic::Ordering::SeqCst);
+        if b != 0 && now_ms().saturating_sub(b) > limit_ms {
+            let cur = CURRENT.lock().map(|c| c.clone()).unwrap_or_default();
+            let _ = std::fs::write(format!("{out_path}.hang"), serde_json::json!({"limit_s": limit_ms / 1000, "in_progress": cur}).to_string());
+            std::process::exit(3);
+        }
+    });
+}
